@@ -98,3 +98,14 @@ pub fn vx_copy_from_slice<T: Copy, const N: usize>(dst: &mut [T; N], src: &[T])
 {
     dst.copy_from_slice(src)
 }
+
+// `s[..4].try_into().unwrap()` for a slice of at least 4 elements (T4)
+#[verifier::external_body]
+pub fn vx_take4<T: Copy>(s: &[T]) -> (r: [T; 4])
+    requires
+        s.len() >= 4,
+    ensures
+        r@ == s@.subrange(0, 4),
+{
+    s[..4].try_into().unwrap()
+}
